@@ -3,6 +3,10 @@ Basic vocabulary shared by generated files and models. Core Lean only.
 -/
 namespace Paho
 
+abbrev Bytes := List UInt8
+
+def b8 (n : Nat) : UInt8 := UInt8.ofNat n
+
 /-- comparison operators as extracted from the source (`ast.Compare`). -/
 inductive Cmp where
   | lt | le | eq | ne | ge | gt
